@@ -64,6 +64,7 @@ func readerFamily(tier universe.Tier) *family {
 			mk(fd(1, D, universe.MapOf(sc(ref.KString), universe.StVal(fx())))),
 			mk(fd(1, D, universe.SetOf(universe.StPtr(fx()))), fd(2, O, universe.StPtr(fx()))),
 		)
+		c03Core = len(f.items) + 6 // readers beyond this index take no schema edits in the quick tier
 		f.items = append(f.items, denseIDs().items...)
 		for _, id := range []uint16{511, 512, 1023, 1024, 1025, 2047, 2048, 4095, 4096, 8191, 8192, 16384} {
 			f.items = append(f.items, mk(fd(id-1, D, sc(ref.KI32)), fd(id, R, sc(ref.KString)), fd(id+1, O, sc(ref.KI64))))
@@ -348,6 +349,8 @@ func init() {
 	})
 }
 
+var c03Core int
+
 var (
 	lastWKey  string
 	lastWVals []*ref.Val
@@ -360,6 +363,9 @@ func c03Body(c *explore.C, tier universe.Tier) {
 	W := T
 	var applied []string
 	for k := 0; k < 2; k++ {
+		if tier == universe.Quick && ti >= c03Core {
+			break // id-shape readers: unedited writers only (all field orders, trailers, priors, duplicates)
+		}
 		es := editsOf(W)
 		if tier == universe.Thorough && k == 1 && ti%8 != 0 {
 			break // second edit only for every 8th reader (bounded sub-family)
@@ -430,6 +436,19 @@ func c03Body(c *explore.C, tier universe.Tier) {
 		}
 		if pi == 0 {
 			harness.Cur.Outcome(harness.Hash64(tiKey(ti), msg), fmt.Sprintf("edits=%d", len(applied)))
+		}
+	}
+	// the same fields sent twice with different values (legal on the wire): the last occurrence wins
+	if len(vals) > 1 {
+		v2 := vals[(vi+1)%len(vals)]
+		m1, m2 := ref.Encode(W, v), ref.Encode(W, v2)
+		dup := append(append([]byte{}, m1[:len(m1)-1]...), m2...)
+		n++
+		dv := decodeAndCompare(T, dup, decodeOpts{Guard: true})
+		if dv.Class != "" {
+			cs := mkCase("C03", dv.Class, T, v2, dup, map[string]interface{}{"writer": W.String(), "edits": applied, "what": "every field occurs twice; first occurrence " + v.Short(), "verdict": dv.detail()})
+			c.Fail(fmt.Sprintf("%s [writer %s, every field sent twice]", dv.Msg, W), cs)
+			return
 		}
 	}
 	harness.Cur.Evals(int64(n))
